@@ -130,6 +130,21 @@ pub fn run(op: &str, rd: &mut Rd) -> Option<R> {
             let sa = SvgArc { from, to, radii, x_rotation: rot, large_arc: la == 1, sweep: sw == 1 };
             Ok(match Arc::from_svg_arc(&sa) { None => "none".to_string(), Some(a) => format!("{} {} {} {} {}", e_pt(a.center), e_vec(a.radii), e(a.start_angle), e(a.sweep_angle), e(a.x_rotation)) })
         })(),
+        "seg.arclen" => (|| -> R { let s = rd.seg()?; let acc = rd.num()?; Ok(e(s.arclen(acc))) })(),
+        "seg.inv_arclen" => (|| -> R { let s = rd.seg()?; let len = rd.num()?; let acc = rd.num()?; Ok(e(s.inv_arclen(len, acc))) })(),
+        "seg.arclen_split" => (|| -> R {
+            // arclen(s), arclen(s[0..t]) + arclen(s[t..1]), and arclen up to the parameter returned by inv_arclen(len)
+            let s = rd.seg()?; let t = rd.num()?; let len = rd.num()?; let acc = rd.num()?;
+            let ti = s.inv_arclen(len, acc);
+            Ok(format!("{} {} {} {} {}", e(s.arclen(acc)), e(s.subsegment(0.0..t).arclen(acc)), e(s.subsegment(t..1.0).arclen(acc)), e(ti), e(s.subsegment(0.0..ti).arclen(acc * 1e-3))))
+        })(),
+        "path.perimeter" => (|| -> R { let acc = rd.num()?; let p = rd.els()?; Ok(e(p.as_slice().perimeter(acc))) })(),
+        "path.dash" => (|| -> R {
+            let off = rd.num()?; let n = rd.nat()?; let mut pat = vec![]; for _ in 0..n { pat.push(rd.num()?); }
+            let p = rd.els()?;
+            let out: Vec<PathEl> = dash(p.into_iter(), off, &pat).take(200000).collect();
+            Ok(format!("ok {}", e_els(out)))
+        })(),
         _ => return None,
     })
 }
